@@ -10,6 +10,7 @@ REF is written from docs/source/querying-data.rst and the statement of C09; it n
 A model point is a dict(time=aware datetime, measurement=str, tags=dict, fields=dict).
 """
 import operator
+from datetime import datetime as _datetime, timezone as _timezone
 import re
 
 OPS = {"==": operator.eq, "!=": operator.ne, "<": operator.lt, "<=": operator.le, ">": operator.gt, ">=": operator.ge}
@@ -150,6 +151,14 @@ def build(q, combined=False):
 
 
 # ---- reference evaluator -------------------------------------------------------------------------
+def _utc(x):
+    """Times are compared as instants.  (Python's == between aware datetimes of different zones is never true when one of them
+    lies in a DST fold or gap - PEP 495 - so both sides are brought to UTC first.)"""
+    if isinstance(x, _datetime) and x.tzinfo is not None:
+        return x.astimezone(_timezone.utc)
+    return x
+
+
 def ref(q, p):
     k = q[0]
     if k == "not":
@@ -175,7 +184,7 @@ def ref(q, p):
                 return False  # a path that cannot be resolved is false
     if kind == "cmp":
         try:
-            return bool(OPS[test[1]](v, test[2]))
+            return bool(OPS[test[1]](_utc(v), _utc(test[2])))
         except Exception:
             return False  # comparison undefined (e.g. None < 'x') is false
     if kind == "exists":
